@@ -41,6 +41,10 @@ type LatScenario struct {
 	// Periods[p] are the samples submitted during period p (in clock order);
 	// every period ends with one UpdateReset call.
 	Periods [][]LatSample `json:"periods"`
+	// LastCall: the final period is closed by UpdateLast (the documented
+	// end-of-life call that ignores the initial coverage rule) instead of
+	// UpdateReset.
+	LastCall bool `json:"last_call,omitempty"`
 }
 
 const latBase = int64(1_000_000_000_000_000_000) // 2001-09-09, far from the zero time
@@ -112,6 +116,7 @@ func genLatScenario(t *rapid.T) *LatScenario {
 		// rapid's slice lengths are skewed towards short ones; windows need periods to slide
 		sc.Periods = append(sc.Periods, rapid.SliceOfN(rapid.Custom(genPeriod), 4, 10).Draw(t, "more")...)
 	}
+	sc.LastCall = rapid.IntRange(0, 3).Draw(t, "lastcall") == 0
 	return sc
 }
 
@@ -149,6 +154,7 @@ type latStats struct {
 	minAboveSmallestOther, maxExact, maxBelowLargestNonPositive  bool
 	maxBelowLargestOther, allNegativeSlot, unknownName           bool
 	exported                                                     [3]int
+	updateLast, lastExportedEarly                                bool
 	windows                                                      int
 	precision                                                    int64
 	calls                                                        int
@@ -183,6 +189,8 @@ func (s *latStats) labels() []string {
 	add(s.maxBelowLargestOther, "max-below-largest(largest>0)")
 	add(s.allNegativeSlot, "slot-with-only-negative-latencies")
 	add(s.unknownName, "export-under-unknown-name")
+	add(s.updateLast, "closed-by-UpdateLast")
+	add(s.lastExportedEarly, "UpdateLast-exported-for-window-longer-than-history")
 	add(s.exported[latency.Avg] > 0, "exported-avg")
 	add(s.exported[latency.Max] > 0, "exported-max")
 	add(s.exported[latency.Min] > 0, "exported-min")
@@ -336,7 +344,13 @@ func runLatency(sc *LatScenario) (st *latStats, err error) {
 		// the UpdateReset that closes period p, exactly one period after the previous one
 		clock = start + sc.PeriodNs
 		m.cur, m.inCall = nil, true
-		l.UpdateReset(m)
+		isLast := sc.LastCall && p == len(sc.Periods)-1
+		if isLast {
+			l.UpdateLast(m)
+			st.updateLast = true
+		} else {
+			l.UpdateReset(m)
+		}
 		m.inCall = false
 		st.calls++
 		if len(m.outside) > 0 {
@@ -373,7 +387,14 @@ func runLatency(sc *LatScenario) (st *latStats, err error) {
 					n++
 				}
 			}
-			what := fmt.Sprintf("UpdateReset #%d (end of period %d): window %v (slots %d..%d) exported %s=%d", p+1, p, durs[k.w], first, p, e.name, e.value)
+			call := "UpdateReset"
+			if isLast {
+				call = "UpdateLast"
+				if p+1 < int(sc.Windows[k.w]) {
+					st.lastExportedEarly = true
+				}
+			}
+			what := fmt.Sprintf(call+" #%d (end of period %d): window %v (slots %d..%d) exported %s=%d", p+1, p, durs[k.w], first, p, e.name, e.value)
 			if n == 0 {
 				st.exportedEmpty = true
 				return st, &latFailure{"oracle", what + fmt.Sprintf(", but no latency was observed in the slots the window covers (samples per slot: %v)", slots)}
@@ -446,7 +467,7 @@ func runLatency(sc *LatScenario) (st *latStats, err error) {
 					st.slidOutWhileExporting = true
 				}
 			}
-			if covered > 0 && !some {
+			if covered > 0 && !some && !isLast {
 				st.silentWithSamples = true
 				if p+1 <= k {
 					st.notYetCovered = true
@@ -469,6 +490,9 @@ func describeLat(sc *LatScenario) string {
 		for _, x := range s {
 			fmt.Fprintf(&sb, " lat=%d@+%d", x.Lat, x.Off)
 		}
+	}
+	if sc.LastCall {
+		sb.WriteString(" | last call is UpdateLast")
 	}
 	return sb.String()
 }
